@@ -6,6 +6,7 @@ use std::panic::{catch_unwind, AssertUnwindSafe};
 mod dualops;
 mod calops;
 mod misc;
+mod numops;
 
 fn main() {
     let path = std::env::args().nth(1).expect("usage: vreplay <scenarios.json>");
@@ -30,6 +31,7 @@ fn run(sc: &Value) -> Value {
     match sc["kind"].as_str().unwrap_or("") {
         k if k.starts_with("dual") => dualops::run(sc),
         k if k.starts_with("cal") => calops::run(sc),
+        k if k.starts_with("number") || k == "set_order" || k == "from" => numops::run(sc),
         _ => misc::run(sc),
     }
 }
